@@ -177,7 +177,7 @@ def _lut_case(args):
     out = []
     lut_arg, featx = _resolve_lut(lut_id, scratch)
     lut, meta = load_lut(lut_arg)
-    lut = np.array(lut)
+    lut = np.array(lut, dtype=float)
     rs = np.random.RandomState(1)
     P, kinds = probes_lut_space(lut, rs, max_simp)
     cnt = 0
@@ -214,7 +214,7 @@ def _lut_case(args):
         nt += int((clear & ~np.isnan(exp)).sum())   # inside the support
         nan_mis = clear & (np.isnan(got) != np.isnan(exp))
         both = clear & ~np.isnan(got) & ~np.isnan(exp)
-        val_mis = both & ~np.isclose(got, exp, rtol=1e-9, atol=1e-12)
+        val_mis = both & ~np.isclose(got, exp, rtol=RT(lut_id, 1e-9), atol=1e-12)
         # inputs must not be modified
         if not (np.array_equal(kw["deform"], dd) and np.array_equal(
                 kw["area_um" if featx == "area_um" else "volume"], xd)):
@@ -301,6 +301,12 @@ def _node_case(args):
     return cnt, out, cnt
 
 
+def RT(lut_id, rtol):
+    """Relative tolerance of a comparison: a table handed over in single
+    precision is scaled and interpolated in single precision."""
+    return 3e-5 if str(lut_id).startswith("tuple32") else rtol
+
+
 def _resolve_lut(lut_id, scratch):
     from dclab.features.emodulus import load
     kind, _, name = lut_id.partition(":")
@@ -311,6 +317,9 @@ def _resolve_lut(lut_id, scratch):
     meta = user_meta("VF-" + name, featx)
     if kind == "tuple":
         return (arr, meta), featx
+    if kind == "tuple32":
+        # the same table handed over in single precision
+        return (arr.astype(np.float32), meta), featx
     path = scratch / f"c05_{name}.txt"
     if not path.exists():
         write_lut_file(path, arr, meta)
@@ -356,9 +365,9 @@ def _law_case(args):
     if np.isnan(e0).all():
         bad("probe-outside-lut", f"{lut_id}: all probes NaN")
         return cnt, out
-    if not np.allclose(E(medium=20.0), 2 * e0, rtol=1e-12, equal_nan=True):
+    if not np.allclose(E(medium=20.0), 2 * e0, rtol=RT(lut_id, 1e-12), equal_nan=True):
         bad("not-proportional-to-viscosity", "E(2 eta) != 2 E(eta)")
-    if not np.allclose(E(flow_rate=0.08), 2 * e0, rtol=1e-12,
+    if not np.allclose(E(flow_rate=0.08), 2 * e0, rtol=RT(lut_id, 1e-12),
                        equal_nan=True):
         bad("not-proportional-to-flow-rate", "E(2 Q) != 2 E(Q)")
     for s in (1.5, 2.0):
@@ -366,7 +375,7 @@ def _law_case(args):
         es = E(x=cx * s ** p, channel_width=20.0 * s, flow_rate=0.04 * s ** 3,
                px_um=0.34 * s)
         cnt += 1
-        if not np.allclose(es, e0, rtol=1e-9, equal_nan=True):
+        if not np.allclose(es, e0, rtol=RT(lut_id, 1e-9), equal_nan=True):
             bad("not-invariant-under-rescaling",
                 f"s={s}: {es} vs {e0}")
     # batch compositions: the value of an event does not depend on the
@@ -444,13 +453,13 @@ def _law_case(args):
             cnt += n
             if not np.isfinite(single).any():
                 bad("probe-outside-lut", f"{lut_id} {setup}: all NaN")
-            if not np.allclose(per_event, single, rtol=1e-9, equal_nan=True):
+            if not np.allclose(per_event, single, rtol=RT(lut_id, 1e-9), equal_nan=True):
                 bad("per-event-temperature-differs",
                     f"{setup} {vm}: array temperature {per_event} vs "
                     f"one-by-one scalar {single}")
             same_arr = E(x=xs, temperature=np.full(n, 23.0), **tk)
             scal = E(x=xs, temperature=23.0, **tk)
-            if not np.allclose(same_arr, scal, rtol=1e-9, equal_nan=True):
+            if not np.allclose(same_arr, scal, rtol=RT(lut_id, 1e-9), equal_nan=True):
                 bad("per-event-temperature-differs",
                     f"{setup} {vm}: identical array {same_arr} vs scalar "
                     f"{scal}")
@@ -460,7 +469,7 @@ def _law_case(args):
         bad("lut-modified", "load_lut returns different data after calls")
     if isinstance(lut_arg, tuple):
         arr0 = jitter_lut(lut_id.partition(":")[2], featx)
-        if not np.array_equal(lut_arg[0], arr0):
+        if not np.array_equal(lut_arg[0], arr0.astype(lut_arg[0].dtype)):
             bad("lut-modified", "the (array, meta) tuple passed in changed")
     return cnt, out
 
@@ -515,7 +524,7 @@ def _replace_case(args):
 
 LUTS = ["builtin:LE-2D-FEM-19", "builtin:HE-2D-FEM-22",
         "builtin:HE-3D-FEM-22", "tuple:userA", "path:userB", "ident:userC",
-        "tuple:uservol"]
+        "tuple:uservol", "tuple32:userA"]
 
 
 def run(ctx):
